@@ -451,6 +451,8 @@ func main() {
 			idx.Notes[funcDisplayName(j.fn)] = fg.notes
 		}
 		pre := fg.enc.prelude()
+		fx := map[string]any{"type_ids": fg.enc.typeOrder, "str_consts": fg.enc.strByName(), "intmode": map[bool]string{true: "bv64", false: "math"}[fg.enc.bv]}
+		idx.Extra[funcDisplayName(j.fn)] = fx
 		for _, o := range fg.obls {
 			if len(want) > 0 {
 				hit := false
